@@ -17,8 +17,8 @@ def run_config(chk, tier, cfgname):
     chk.not_decided += ["that the allocator received every block back for concrete histories (needs the all-list "
                         "to contain every allocation: list-shape rule O7 is the structural part)",
                         "purity of user AllocMeta::layout"]
-    typestate.apply(chk, "sweep-outcome-table", "sweep_one", aspects=("safety", "once"))
-    typestate.apply(chk, "drop_all-table", "drop_all", aspects=("safety", "count", "once"))
+    typestate.apply(chk, "sweep-outcome-table", "sweep_one", aspects=("safety", "once", "leak"))
+    typestate.apply(chk, "drop_all-table", "drop_all", aspects=("safety", "count", "once", "leak"))
     typestate.apply(chk, "link-table", "link", aspects=("safety",))
     typestate.report_automaton(chk, ["S6", "S1"])
     # the value handed to an allocation function is moved into the block (otherwise it is destructed at once by the
